@@ -16,12 +16,12 @@ func TestMain(m *testing.M) { vstat.Main(m) }
 // generators
 
 type genOpts struct {
-	clock    bool // advance / wait / park ops and expiries the clock will cross
-	pastExp  bool // records written already expired (in-memory only)
+	clock       bool // advance / wait / park ops and expiries the clock will cross
+	pastExp     bool // records written already expired (in-memory only)
 	bornExpired bool // no clock ops, but some writes carry an expiry that is already in the past (in-memory only)
-	park     bool
-	maxLen   int
-	allKinds []string
+	park        bool
+	maxLen      int
+	allKinds    []string
 }
 
 func genSeq(t *rapid.T, o genOpts) SCase {
@@ -300,6 +300,15 @@ func TestReplay(t *testing.T) {
 	env, err := vstat.LoadReplay(p, nil)
 	if err != nil {
 		t.Fatalf("cannot load %s: %v", p, err)
+	}
+	if env.Test == "TestC06RedisWire" {
+		var c WireCase
+		if _, err := vstat.LoadReplay(p, &c); err != nil {
+			t.Fatalf("cannot decode %s: %v", p, err)
+		}
+		_, v := RunWire(c)
+		vstat.For("C06").Report(t, "TestReplay", c, v)
+		return
 	}
 	if env.Test == "TestC03Bulk" {
 		var c BulkCase
